@@ -1,156 +1,153 @@
 import Qv.Proofs.Book
+import Qv.Proofs.BookCons
 /-!
 # C14 — Model bookkeeping stays consistent under every history of edits
 
-Only the property theorems and their non-vacuity examples (helper lemmas: `Qv/Proofs/Book.lean`).
-The model is `Qv.Model.Book`: `run fx κ ops` is the state of a fresh model of type `κ` after the edit history
-`ops` (item and augmented assignment incl. zero values and raw keys with repeated labels, `+= -= *= /= **=`
-with dict or scalar, `update`, `clear`, `refresh`, `copy`, the six comparison constraints), executed in the order
-of the MRO.  `fx = Fix.current` is the code as it is; `Fix.fixed` switches on the three proposed repairs
-(D1 `BO.__setitem__`, D2 `PCBO.__imul__`, D9 `PUSO._create_pubo`).  Its tie to `/repo` is `harness/c14.py`.
+Only the property theorems and their non-vacuity examples (helper lemmas: `Qv/Proofs/Book.lean`,
+`Qv/Proofs/BookCons.lean`).  The model is `Qv.Model.Book`: `run fx κ ops` is the state of a fresh model of type
+`κ` after the edit history `ops` (item and augmented assignment incl. zero values and raw keys with repeated
+labels, `+= -= *= /= **=` with dict or scalar, `update`, `clear`, `refresh`, `copy`, the six comparison
+constraints), executed in the order of the MRO.  **`Fix.fixed` is the code as it is now** (after the repairs
+67e6723 `BO.__setitem__`, 8d2eba8 `PCBO/PCSO.__imul__`, 77284a9 `PUSO._create_pubo`); `Fix.current` is the code
+before those repairs, kept to document the three defects (replays at the end).  The model's tie to `/repo` is
+`harness/c14.py` (`VARIANT = "fixed"`).
 
-`Inv = I1 ∧ I2 ∧ I3 ∧ I4` (DESIGN §4/C14).  The code as it is keeps I1 and I2 (and canonical storage I0) along
-every history (`inv_history_partial`) but not I3 (`d1_replay…`) nor I4 (`d2_replay`), and its PUSO reductions
-hand out an ancilla label that the mapping already uses (`d9_replay`).  With the repairs all of I0–I3 hold along
-every history (`inv_history`), and I4 along every history of user edits (`anc_history_partial`).
+`Inv = I1 ∧ I2 ∧ I3 ∧ I4` (DESIGN §4/C14): I1 cached `variables`/`degree`/`num_binary_variables` are upper
+bounds and the count is the size of the reported set; I2 `mapping`/`reverse_mapping` are mutually inverse
+bijections between `dom mapping` and `0..nextLabel-1`; I3 `dom mapping` = reported variables and
+`nextLabel = num_binary_variables`; I4 every label of the ancilla form `__a<k>` that the model mentions (terms,
+variables, mapping) is below the ancilla counter.  I0 is canonical storage (C05).
 -/
 namespace Qv.C14
 open Qv Qv.Book
 
-/-- **T14.1 (a) — what holds of the code as it is, for every history of every length** (and of the repaired
-code: `fx` is arbitrary).  The terms are stored canonically; `variables`, `degree`, `num_binary_variables` are
-upper bounds of the exact ones and the count is the size of the reported set (I1); `mapping` and
-`reverse_mapping` are mutually inverse bijections between `dom mapping` and `0..nextLabel-1` (I2). -/
-theorem inv_history_partial (fx : Fix) (κ : Kind) (ops : List Op) :
-    I0 (run fx κ ops) ∧ I1 (run fx κ ops) ∧ I2 (run fx κ ops) :=
-  have h := run_pres (closed_PInv fx) κ ops (fun op _ s => opOK_true s op)
-  ⟨run_pres (closed_I0 fx) κ ops (fun op _ s => opOK_true s op), h.1, h.2⟩
+/-! ## T14.1 — the invariant along every history -/
 
-example : (run Fix.current .puso [.setitem [0, 0, 1, 2] 1, .augitem [1] .add 1, .imulD [([3], 2)]]).mapping
-    = [(1, 0), (2, 1), (3, 2)] := by decide +kernel
+/-- **T14.1 (I0–I3, unconditional).**  After every finite history of edits on every model type: the terms are
+stored canonically; `variables`, `degree`, `num_binary_variables` are upper bounds of the exact ones (I1);
+`mapping` and `reverse_mapping` are mutually inverse bijections (I2) between exactly the reported variables and
+`0..num_binary_variables-1` (I3). -/
+theorem inv_history (κ : Kind) (ops : List Op) :
+    I0 (Book.run Fix.fixed κ ops) ∧ I1 (Book.run Fix.fixed κ ops) ∧ I2 (Book.run Fix.fixed κ ops) ∧
+    I3 (Book.run Fix.fixed κ ops) :=
+  have h := run_pres (closed_QInv Fix.fixed rfl) κ ops (fun op _ s => opOK_true s op)
+  ⟨run_pres (closed_I0 Fix.fixed) κ ops (fun op _ s => opOK_true s op), h.1, h.2.1, h.2.2⟩
 
-/-- **T14.1 (b) — replays: the code as it is does not keep `Inv`.**
-D1, zero value: `H = PUBO(); H[('a',)] = 0` leaves `mapping = {'a': 0}`, `variables = set()`. -/
-theorem d1_replay_zero : ¬ Inv (run Fix.current .pubo [.setitem [0] 0]) :=
-  fun h => absurd h.2.2.1 (by decide +kernel)
-
-/-- D1, label squashed away: `H = PUSO(); H[('a','a','b')] = 1` maps `'a'` although only `('b',)` is stored. -/
-theorem d1_replay_squashed : ¬ Inv (run Fix.current .puso [.setitem [0, 0, 1] 1]) :=
-  fun h => absurd h.2.2.1 (by decide +kernel)
-
-/-- D2: `H = PCBO(); H.add_constraint_le_zero({('x',):1,('y',):1,('z',):1,():-2}); H *= {('x',): 1}`
-leaves `__a0`, `__a1` in the terms with `num_ancillas = 0` (and no recorded constraint). -/
-theorem d2_replay : ¬ Inv (run Fix.current .pcbo
-    [.cons .le [([0], 1), ([1], 1), ([2], 1), ([], -2)] 1 true none none, .imulD [([0], 1)]]) :=
-  fun h => absurd h.2.2.2 (by decide +kernel)
-
-/-- D2 also loses the recorded constraints. -/
-theorem d2_replay_constraints : (run Fix.current .pcbo
-    [.cons .le [([0], 1), ([1], 1), ([2], 1), ([], -2)] 1 true none none, .imulD [([0], 1)]]).constraints = [] := by
-  decide +kernel
-
-/-- D9: `H = PUSO(); H[('a',)] = 1; H[('b','c','d')] = 1; H[('a',)] = 0` satisfies `Inv`, yet the first ancilla of
-`to_qubo()/to_quso()` is `3`, the mapping's label of the live variable `'d'`. -/
-theorem d9_replay :
-    Inv (run Fix.current .puso [.setitem [0] 1, .setitem [1, 2, 3] 1, .setitem [0] 0]) ∧
-    ancStart Fix.current (run Fix.current .puso [.setitem [0] 1, .setitem [1, 2, 3] 1, .setitem [0] 0])
-      ∈ convBase (run Fix.current .puso [.setitem [0] 1, .setitem [1, 2, 3] 1, .setitem [0] 0]) := by
-  refine ⟨⟨?_, ?_, ?_, ?_⟩, ?_⟩
-  · exact (inv_history_partial _ _ _).2.1
-  · exact (inv_history_partial _ _ _).2.2
-  · decide +kernel
-  · decide +kernel
-  · decide +kernel
-
-/-- **T14.1 (c) — with the repaired `BO.__setitem__`, I0–I3 hold along every history**: in addition to the
-above, the mapped labels are exactly the reported variables and `nextLabel = num_binary_variables`, so that
-`mapping`/`reverse_mapping` are mutually inverse bijections between exactly the reported variables and
-`0..num_binary_variables-1`. -/
-theorem inv_history (fx : Fix) (hfx : fx.d1 = true) (κ : Kind) (ops : List Op) :
-    I0 (run fx κ ops) ∧ I1 (run fx κ ops) ∧ I2 (run fx κ ops) ∧ I3 (run fx κ ops) :=
-  have h := run_pres (closed_QInv fx hfx) κ ops (fun op _ s => opOK_true s op)
-  ⟨(inv_history_partial fx κ ops).1, h.1, h.2.1, h.2.2⟩
-
-example : Fix.fixed.d1 = true := rfl
-example : (run Fix.fixed .pubo [.setitem [0] 0, .setitem [2, 1, 1] 3]).mapping = [(2, 0), (1, 1)] := by
+example : (Book.run Fix.fixed .pubo [.setitem [0] 0, .setitem [2, 1, 1] 3]).mapping = [(2, 0), (1, 1)] := by
   decide +kernel
 
 /-- **T14.4 — constraint ancilla names are never reused** (I4): along every history of user edits (keys without
 labels of the reserved form `__a<k>`), every label of that form that the model mentions — in its terms, its
 `variables` or its `mapping` — is below the ancilla counter, so the names `_next_ancilla` hands out next occur
-nowhere in the model.  For the code as it is this needs the history to contain no `*=` by a dict and no `**=`
-(`d2_replay`); with the D2 repair it holds for every history.  `Op.Fresh` is the one hypothesis about
-`Qv.addConstraint` (the model of `_pcbo.py`, C02's subject) that is used: a constraint's contribution mentions
-no ancilla label at or above the counter it returns and never lowers the counter; it is decidable for each
-concrete constraint (example below). -/
-theorem anc_history_partial (fx : Fix) (κ : Kind) (ops : List Op)
-    (hmul : ∀ op ∈ ops, fx.d2 = true ∨ op.isDictMul = false)
-    (huser : ∀ op ∈ ops, op.User) (hfresh : ∀ op ∈ ops, op.Fresh) : I4 (run fx κ ops) :=
-  run_I4 κ ops hmul huser hfresh
+nowhere in the model.  No hypothesis on the constraint generator: that `Qv.addConstraint` (and the PCSO wrapper)
+only introduces labels of the constraint polynomial and ancillas between the old and the new counter is
+`Qv.C03.pcbo_counter_and_labels` (`Qv.Book.consFresh_of_user`). -/
+theorem anc_history (κ : Kind) (ops : List Op) (huser : ∀ op ∈ ops, op.User) : I4 (Book.run Fix.fixed κ ops) :=
+  run_I4_user rfl κ ops huser
 
-example : ConsFresh .pcbo 3 .le [([0], 1), ([1], 1), ([2], 1), ([], -2)] 1 true (none, none) := by decide +kernel
-example : ConsFresh .pcso 1 .ne [([0], 1), ([1], 1), ([], -1)] 2 false (none, none) := by decide +kernel
-example : I4 (run Fix.fixed .pcbo
-    [.cons .le [([0], 1), ([1], 1), ([2], 1), ([], -2)] 1 true none none, .imulD [([0], 1)],
-     .cons .ne [([0], 1), ([1], 1), ([], -1)] 1 true none none]) := by decide +kernel
+example : ([.cons .le [([0], 1), ([1], 1), ([2], 1), ([], -2)] 1 true none none, .imulD [([0], 1)], .refresh,
+     .cons .ne [([0], 1), ([1], 1), ([], -1)] 1 true none none] : List Op).all (fun op => decide op.User) = true := by
+  decide +kernel
 
-/-- **T14.4 (counter)** — no edit other than `clear()` lowers the ancilla counter (with the D2 repair; in the
-code as it is: no edit other than `clear()`, `*=` by a dict and `**=`), and only a constraint changes it. -/
-theorem anc_counter (fx : Fix) (s : State) (op : Op) (hmul : fx.d2 = true ∨ op.isDictMul = false) :
-    (step fx s op).1.ancilla =
-      match op with
-      | .clear => 0
-      | .cons r P lam lt lo hi =>
-        if hasCons s.kind then (consDelta s.kind s.ancilla r P lam lt (lo, hi)).2.1 else s.ancilla
-      | _ => s.ancilla :=
-  step_anc s op hmul
+/-- **T14.1 (full invariant).**  `Inv` holds after every history of user edits. -/
+theorem inv_history_full (κ : Kind) (ops : List Op) (huser : ∀ op ∈ ops, op.User) :
+    Inv (Book.run Fix.fixed κ ops) :=
+  ⟨(inv_history κ ops).2.1, (inv_history κ ops).2.2.1, (inv_history κ ops).2.2.2, anc_history κ ops huser⟩
+
+/-- **T14.4 (counter)** — only `clear()` resets the ancilla counter, only a constraint changes it otherwise
+(`*=` by a dict and `**=` included: `ancAfter` is `0` for `clear`, the constraint's returned counter for a
+constraint, the old counter otherwise), and a constraint never lowers it. -/
+theorem anc_counter (s : State) (op : Op) : (step Fix.fixed s op).1.ancilla = ancAfter s op :=
+  step_anc s op (Or.inl rfl)
+
+example (s : State) (q : Poly) : ancAfter s (.imulD q) = s.ancilla := rfl
+example (s : State) : ancAfter s .clear = 0 := rfl
+example (s : State) (r : Rel) (P : Poly) (lam : Rat) (lt : Bool) (lo hi : Option Rat) :
+    ancAfter s (.cons r P lam lt lo hi) =
+      if hasCons s.kind then (consDelta s.kind s.ancilla r P lam lt (lo, hi)).2.1 else s.ancilla := rfl
+
+theorem anc_counter_mono (s : State) (op : Op) (hu : op.User) (hc : op ≠ .clear) :
+    s.ancilla ≤ (step Fix.fixed s op).1.ancilla := by
+  rw [anc_counter]
+  cases op with
+  | clear => exact absurd rfl hc
+  | cons r P lam lt lo hi =>
+    simp only [ancAfter]
+    split
+    · exact (consFresh_of_user s.kind s.ancilla r P lam lt (lo, hi) hu).1
+    · exact Nat.le_refl _
+  | setitem k v => exact Nat.le_refl _
+  | augitem k a d => exact Nat.le_refl _
+  | iaddD q => exact Nat.le_refl _
+  | isubD q => exact Nat.le_refl _
+  | iaddC c => exact Nat.le_refl _
+  | isubC c => exact Nat.le_refl _
+  | imulD q => exact Nat.le_refl _
+  | imulC c => exact Nat.le_refl _
+  | idivC c => exact Nat.le_refl _
+  | ipow e => exact Nat.le_refl _
+  | update q => exact Nat.le_refl _
+  | refresh => exact Nat.le_refl _
+  | copy => exact Nat.le_refl _
+
+example : (Book.run Fix.fixed .pcso
+    [.cons .le [([0], 1), ([1], 1), ([2], 1), ([], -2)] 1 true none none, .ipow 2, .refresh, .copy]).ancilla = 3 := by
+  decide +kernel
+
+/-! ## T14.2 — refresh and copy -/
 
 /-- **T14.2 — `refresh()` leaves the terms unchanged (as a dict, hence as a function) and makes everything
-exact**, after every history, in the code as it is and repaired: it raises nothing; the kind, the terms, the
-recorded constraints and the ancilla counter are unchanged; `variables` is exactly the set of labels occurring
-in the terms and `degree` is the exact degree (`-inf` for no terms); I1–I3 hold, so `num_binary_variables` is the
-exact count and `mapping`/`reverse_mapping` are bijections between exactly those labels and `0..n-1`. -/
+exact**, after every history: it raises nothing; the kind, the terms, the recorded constraints and the ancilla
+counter are unchanged; `variables` is exactly the set of labels occurring in the terms and `degree` is the exact
+degree (`-inf` for no terms); I1–I3 hold, so `num_binary_variables` is the exact count and
+`mapping`/`reverse_mapping` are bijections between exactly those labels and `0..n-1`.  (Proved for both
+variants of the model: `fx` arbitrary.) -/
 theorem refresh_exact (fx : Fix) (κ : Kind) (ops : List Op) :
-    ∃ c, refresh fx (run fx κ ops) = (c, none) ∧ c.kind = (run fx κ ops).kind ∧
-      c.terms = (run fx κ ops).terms ∧
+    ∃ c, refresh fx (Book.run fx κ ops) = (c, none) ∧ c.kind = (Book.run fx κ ops).kind ∧
+      c.terms = (Book.run fx κ ops).terms ∧
       (∀ i, i ∈ c.variables ↔ ∃ kv ∈ c.terms, i ∈ kv.1) ∧ c.degree = trueDegree c.terms ∧
       I1 c ∧ I2 c ∧ I3 c ∧
-      c.ancilla = (run fx κ ops).ancilla ∧ c.constraints = (run fx κ ops).constraints := by
+      c.ancilla = (Book.run fx κ ops).ancilla ∧ c.constraints = (Book.run fx κ ops).constraints := by
   obtain ⟨c, h1, h2, h3, h4, h5, h6, h7, h8, h9⟩ :=
-    refresh_spec fx (run fx κ ops) (inv_history_partial fx κ ops).1
+    refresh_spec fx (Book.run fx κ ops) (run_pres (closed_I0 fx) κ ops (fun op _ s => opOK_true s op))
   exact ⟨c, h1, h2, h3, h4.1, h4.2, h5, h6, h7, h8, h9⟩
 
-example : (step Fix.current (run Fix.current .pubo [.setitem [0] 0, .setitem [1, 2] 1, .augitem [1, 2] .sub 1,
+example : (step Fix.fixed (Book.run Fix.fixed .pubo [.setitem [1, 2] 1, .augitem [1, 2] .sub 1,
     .setitem [3] 2]) .refresh).1.mapping = [(3, 0)] := by decide +kernel
 
-/-- `copy()` likewise (a copy taken at any point has the same terms and exact bookkeeping). -/
+/-- `copy()` likewise (a copy taken at any point has the same terms, constraints and ancilla counter, and exact
+bookkeeping). -/
 theorem copy_exact (fx : Fix) (κ : Kind) (ops : List Op) :
-    ∃ c, copy fx (run fx κ ops) = (c, none) ∧ c.terms = (run fx κ ops).terms ∧
+    ∃ c, copy fx (Book.run fx κ ops) = (c, none) ∧ c.terms = (Book.run fx κ ops).terms ∧
       (∀ i, i ∈ c.variables ↔ ∃ kv ∈ c.terms, i ∈ kv.1) ∧ c.degree = trueDegree c.terms ∧
       I1 c ∧ I2 c ∧ I3 c ∧
-      c.ancilla = (run fx κ ops).ancilla ∧ c.constraints = (run fx κ ops).constraints := by
+      c.ancilla = (Book.run fx κ ops).ancilla ∧ c.constraints = (Book.run fx κ ops).constraints := by
   obtain ⟨c, h1, _, h3, h4, h5, h6, h7, h8, h9⟩ :=
-    copy_spec fx (run fx κ ops) (inv_history_partial fx κ ops).1
+    copy_spec fx (Book.run fx κ ops) (run_pres (closed_I0 fx) κ ops (fun op _ s => opOK_true s op))
   exact ⟨c, h1, h3, h4.1, h4.2, h5, h6, h7, h8, h9⟩
 
-/-- **T14.3 — labels of the enumerated and reduced forms** (repaired code, every history, labelled types):
-every label occurring in the terms has a mapping label, that label is below `num_binary_variables`, and the
-first ancilla label of a degree reduction is `num_binary_variables`; so model variables use only mapping
-labels and ancillas strictly larger, unused ones.  (For the code as it is: `d9_replay`, and `d1_replay…` where
-`mapping` has labels `≥ num_binary_variables`.) -/
-theorem conv_labels (fx : Fix) (h1 : fx.d1 = true) (h9 : fx.d9 = true) (κ : Kind) (ops : List Op)
-    (hb : hasBO (run fx κ ops).kind = true) :
-    (∀ kv ∈ (run fx κ ops).terms, ∀ i ∈ kv.1,
-      ∃ l, lookup (run fx κ ops).mapping i = some l ∧ l < ancStart fx (run fx κ ops)) ∧
-    (∀ l ∈ convBase (run fx κ ops), l < ancStart fx (run fx κ ops)) ∧
-    ancStart fx (run fx κ ops) = (run fx κ ops).numVars := by
-  obtain ⟨_, i1, i2, i3⟩ := inv_history fx h1 κ ops
-  have ha : ancStart fx (run fx κ ops) = (run fx κ ops).numVars := by simp [ancStart, h9]
-  rw [ha]
-  exact ⟨fun kv hkv i hi => var_label_lt hb i1 i2 i3 kv hkv i hi, fun l hl => convBase_lt hb i2 i3 l hl, rfl⟩
+/-! ## T14.3 — labels of the enumerated and reduced forms -/
 
-example : convBase (run Fix.fixed .puso [.setitem [0] 1, .setitem [1, 2, 3] 1, .setitem [0] 0]) = [1, 2, 3] ∧
-    ancStart Fix.fixed (run Fix.fixed .puso [.setitem [0] 1, .setitem [1, 2, 3] 1, .setitem [0] 0]) = 4 := by
+/-- **T14.3** (every history, labelled types): every label occurring in the terms has a mapping label, that
+label is below `num_binary_variables`, and the first ancilla label of a degree reduction is
+`num_binary_variables`; so model variables use only mapping labels and ancillas strictly larger, unused ones. -/
+theorem conv_labels (κ : Kind) (ops : List Op) (hb : hasBO (Book.run Fix.fixed κ ops).kind = true) :
+    (∀ kv ∈ (Book.run Fix.fixed κ ops).terms, ∀ i ∈ kv.1,
+      ∃ l, lookup (Book.run Fix.fixed κ ops).mapping i = some l ∧ l < ancStart Fix.fixed (Book.run Fix.fixed κ ops)) ∧
+    (∀ l ∈ convBase (Book.run Fix.fixed κ ops), l < ancStart Fix.fixed (Book.run Fix.fixed κ ops)) ∧
+    (∀ p ∈ (Book.run Fix.fixed κ ops).mapping, p.2 < ancStart Fix.fixed (Book.run Fix.fixed κ ops)) ∧
+    ancStart Fix.fixed (Book.run Fix.fixed κ ops) = (Book.run Fix.fixed κ ops).numVars := by
+  obtain ⟨_, i1, i2, i3⟩ := inv_history κ ops
+  have ha : ancStart Fix.fixed (Book.run Fix.fixed κ ops) = (Book.run Fix.fixed κ ops).numVars := by
+    simp [ancStart, Fix.fixed]
+  rw [ha]
+  refine ⟨fun kv hkv i hi => var_label_lt hb i1 i2 i3 kv hkv i hi, fun l hl => convBase_lt hb i2 i3 l hl,
+    fun p hp => ?_, rfl⟩
+  rw [← (i3 hb).2.2]
+  exact (i2.2.2.2.2.1 p.2).mp (List.mem_map.mpr ⟨p, hp, rfl⟩)
+
+example : convBase (Book.run Fix.fixed .puso [.setitem [0] 1, .setitem [1, 2, 3] 1, .setitem [0] 0]) = [1, 2, 3] ∧
+    ancStart Fix.fixed (Book.run Fix.fixed .puso [.setitem [0] 1, .setitem [1, 2, 3] 1, .setitem [0] 0]) = 4 := by
   decide +kernel
 
 /-- **Terms are C05's terms**: the bookkeeping never changes what `DictArithmetic` stores — a successful
@@ -159,5 +156,67 @@ theorem setitem_terms_arith (fx : Fix) (s s' : State) (k : Key) (v : Rat) (h : s
     setItem (squash s.kind) s.terms k v = .ok s'.terms := by
   obtain ⟨k', hk, ht⟩ := setitem_terms h
   simp [setItem, hk, ht, bind, Except.bind, pure, Except.pure]
+
+/-! ## The code before the repairs (`Fix.current`): what held, and the three defects as replays -/
+
+/-- What held of the code before the repairs as well (`fx` arbitrary): canonical storage, I1 and I2 along every
+history. -/
+theorem bounds_history (fx : Fix) (κ : Kind) (ops : List Op) :
+    I0 (Book.run fx κ ops) ∧ I1 (Book.run fx κ ops) ∧ I2 (Book.run fx κ ops) :=
+  have h := run_pres (closed_PInv fx) κ ops (fun op _ s => opOK_true s op)
+  ⟨run_pres (closed_I0 fx) κ ops (fun op _ s => opOK_true s op), h.1, h.2⟩
+
+/-- D1 (fixed by 67e6723), zero value: `H = PUBO(); H[('a',)] = 0` left `mapping = {'a': 0}`, `variables = set()`. -/
+theorem d1_replay_zero : ¬ Inv (Book.run Fix.current .pubo [.setitem [0] 0]) :=
+  fun h => absurd h.2.2.1 (by decide +kernel)
+
+/-- the same history is sound now -/
+example : Inv (Book.run Fix.fixed .pubo [.setitem [0] 0]) :=
+  ⟨(inv_history _ _).2.1, (inv_history _ _).2.2.1, by decide +kernel, by decide +kernel⟩
+
+/-- D1, label squashed away: `H = PUSO(); H[('a','a','b')] = 1` mapped `'a'` although only `('b',)` is stored. -/
+theorem d1_replay_squashed : ¬ Inv (Book.run Fix.current .puso [.setitem [0, 0, 1] 1]) :=
+  fun h => absurd h.2.2.1 (by decide +kernel)
+
+example : Inv (Book.run Fix.fixed .puso [.setitem [0, 0, 1] 1]) :=
+  ⟨(inv_history _ _).2.1, (inv_history _ _).2.2.1, by decide +kernel, by decide +kernel⟩
+
+/-- D2 (fixed by 8d2eba8): `H = PCBO(); H.add_constraint_le_zero({('x',):1,('y',):1,('z',):1,():-2});
+H *= {('x',): 1}` left `__a0`, `__a1` in the terms with `num_ancillas = 0` (and no recorded constraint). -/
+theorem d2_replay : ¬ Inv (Book.run Fix.current .pcbo
+    [.cons .le [([0], 1), ([1], 1), ([2], 1), ([], -2)] 1 true none none, .imulD [([0], 1)]]) :=
+  fun h => absurd h.2.2.2 (by decide +kernel)
+
+theorem d2_replay_constraints : (Book.run Fix.current .pcbo
+    [.cons .le [([0], 1), ([1], 1), ([2], 1), ([], -2)] 1 true none none, .imulD [([0], 1)]]).constraints = [] := by
+  decide +kernel
+
+example : Inv (Book.run Fix.fixed .pcbo
+    [.cons .le [([0], 1), ([1], 1), ([2], 1), ([], -2)] 1 true none none, .imulD [([0], 1)]]) :=
+  ⟨(inv_history _ _).2.1, (inv_history _ _).2.2.1, by decide +kernel, by decide +kernel⟩
+
+example : (Book.run Fix.fixed .pcbo
+    [.cons .le [([0], 1), ([1], 1), ([2], 1), ([], -2)] 1 true none none, .imulD [([0], 1)]]).constraints
+    = [(.le, [([0], 1), ([1], 1), ([2], 1), ([], -2)])] ∧
+    (Book.run Fix.fixed .pcbo
+    [.cons .le [([0], 1), ([1], 1), ([2], 1), ([], -2)] 1 true none none, .imulD [([0], 1)]]).ancilla = 2 := by
+  decide +kernel
+
+/-- D9 (fixed by 77284a9): `H = PUSO(); H[('a',)] = 1; H[('b','c','d')] = 1; H[('a',)] = 0` satisfied `Inv`, yet the
+first ancilla of `to_qubo()/to_quso()` was `3`, the mapping's label of the live variable `'d'`. -/
+theorem d9_replay :
+    Inv (Book.run Fix.current .puso [.setitem [0] 1, .setitem [1, 2, 3] 1, .setitem [0] 0]) ∧
+    ancStart Fix.current (Book.run Fix.current .puso [.setitem [0] 1, .setitem [1, 2, 3] 1, .setitem [0] 0])
+      ∈ convBase (Book.run Fix.current .puso [.setitem [0] 1, .setitem [1, 2, 3] 1, .setitem [0] 0]) := by
+  refine ⟨⟨?_, ?_, ?_, ?_⟩, ?_⟩
+  · exact (bounds_history _ _ _).2.1
+  · exact (bounds_history _ _ _).2.2
+  · decide +kernel
+  · decide +kernel
+  · decide +kernel
+
+example : ancStart Fix.fixed (Book.run Fix.fixed .puso [.setitem [0] 1, .setitem [1, 2, 3] 1, .setitem [0] 0])
+      ∉ convBase (Book.run Fix.fixed .puso [.setitem [0] 1, .setitem [1, 2, 3] 1, .setitem [0] 0]) := by
+  decide +kernel
 
 end Qv.C14
